@@ -800,6 +800,69 @@ pub async fn vrf_directories<TC: Configuration>(cx: &mut Cx, r: &mut Rng, nkeys:
                     cx.fail(format!("C18 [cfg {}]: lookup verification still succeeds with {} (key {}, label {})", cfg, what, hexs(&k[..4]), hexs(&l[..l.len().min(8)])));
                 }
             }
+            // the same binding in history proofs, in both verification modes, with the values as they are and with every
+            // value presented as a tombstone (where the value check is skipped the VRF check must still bind the label)
+            if let Ok((hp0, heh)) = dir.key_history(&al, HistoryParams::Complete).await {
+                let mut tomb = hp0.clone();
+                for u in tomb.update_proofs.iter_mut() {
+                    u.value = AkdValue(vec![]);
+                }
+                for (pres, hp, modes) in [("as stored", &hp0, vec![false, true]), ("all values presented as tombstones", &tomb, vec![true])] {
+                    for allow in modes {
+                        let vp = if allow { HistoryVerificationParams::AllowMissingValues { history_params: HistoryParams::Complete } } else { HistoryVerificationParams::Default { history_params: HistoryParams::Complete } };
+                        let hok = |q: &HistoryProof| key_history_verify::<TC>(&pk, heh.1, heh.0, al.clone(), q.clone(), vp).is_ok();
+                        if !hok(hp) {
+                            cx.fail(format!("C18 [cfg {}]: honest history proof ({}, allow_missing {}) does not verify", cfg, pres, allow));
+                            continue;
+                        }
+                        let mut halts: Vec<(String, bool)> = vec![];
+                        for i in 0..hp.update_proofs.len() {
+                            let mut q = hp.clone();
+                            q.update_proofs[i].existence_vrf_proof[7] ^= 1;
+                            halts.push((format!("existence VRF proof of entry {} altered", i), hok(&q)));
+                            let mut q = hp.clone();
+                            q.update_proofs[i].existence_vrf_proof = vec![];
+                            halts.push((format!("existence VRF proof of entry {} emptied", i), hok(&q)));
+                            let mut q = hp.clone();
+                            q.update_proofs[i].existence_proof.label.label_val[31] ^= 1;
+                            halts.push((format!("claimed node label of entry {} altered", i), hok(&q)));
+                            let j = (i + 1) % hp.update_proofs.len();
+                            if j != i {
+                                let mut q = hp.clone();
+                                q.update_proofs[i].existence_vrf_proof = hp.update_proofs[j].existence_vrf_proof.clone();
+                                halts.push((format!("existence VRF proof of entry {} replaced by that of entry {}", i, j), hok(&q)));
+                                let mut q = hp.clone();
+                                q.update_proofs[i].existence_vrf_proof = hp.update_proofs[j].existence_vrf_proof.clone();
+                                q.update_proofs[i].existence_proof = hp.update_proofs[j].existence_proof.clone();
+                                halts.push((format!("entry {} carries the VRF proof and leaf of entry {}", i, j), hok(&q)));
+                            }
+                            if let Some(pv) = hp.update_proofs[i].previous_version_vrf_proof.clone() {
+                                let mut q = hp.clone();
+                                let mut pv2 = pv.clone();
+                                pv2[3] ^= 0x10;
+                                q.update_proofs[i].previous_version_vrf_proof = Some(pv2);
+                                halts.push((format!("previous-version VRF proof of entry {} altered", i), hok(&q)));
+                            }
+                        }
+                        for i in 0..hp.past_marker_vrf_proofs.len() {
+                            let mut q = hp.clone();
+                            q.past_marker_vrf_proofs[i][0] ^= 2;
+                            halts.push((format!("past-marker VRF proof {} altered", i), hok(&q)));
+                        }
+                        for i in 0..hp.future_marker_vrf_proofs.len() {
+                            let mut q = hp.clone();
+                            q.future_marker_vrf_proofs[i][1] ^= 2;
+                            halts.push((format!("future-marker VRF proof {} altered", i), hok(&q)));
+                        }
+                        for (what, accepted) in halts {
+                            cx.stat("vrf_history_alterations");
+                            if accepted {
+                                cx.fail(format!("C18 [cfg {}]: history verification ({}, allow_missing {}) still succeeds with {} (key {}, label {})", cfg, pres, allow, what, hexs(&k[..4]), hexs(&l[..l.len().min(8)])));
+                            }
+                        }
+                    }
+                }
+            }
             for (j, pk2) in pks.iter().enumerate() {
                 if *pk2 != pk {
                     cx.stat("vrf_alterations");
